@@ -5,6 +5,9 @@
 
 mod driver;
 mod engine;
+mod exch;
+mod exch_run;
+mod gen;
 mod props;
 mod refmodel;
 
